@@ -1250,6 +1250,39 @@ fn check_const_write(i: u64) -> Verdict {
     }
 }
 
+/// named matrix components: `m._mRC` (zero based) and `m._RC` (one based) on a matrix of R rows and C columns, read
+/// and written, alone and as a pair: accepted exactly when every component exists (and, for a write, none repeats)
+fn matrix_component_case(i: u64) -> (String, bool, String) {
+    let mut k = i as usize;
+    let mut take = |n: usize| {
+        let r = k % n;
+        k /= n;
+        r
+    };
+    let (rows, cols, r, c, one_based, form) = (1 + take(4), 1 + take(4), take(4), take(4), take(2) == 1, take(3));
+    let comp = |r: usize, c: usize| if one_based { format!("_{}{}", r + 1, c + 1) } else { format!("_m{}{}", r, c) };
+    let ty = format!("float{}x{}", rows, cols);
+    let exists = r < rows && c < cols;
+    let (stmt, ok) = match form {
+        0 => (format!("float v = m.{};", comp(r, c)), exists),
+        1 => (format!("m.{} = 1.0;", comp(r, c)), exists),
+        // a pair with the first component: exists, and as a write target no repeat
+        _ => (format!("m.{}{} = float2(1.0, 2.0);", comp(0, 0), comp(r, c)), exists && !(r == 0 && c == 0)),
+    };
+    let src = format!("void f({} m) {{\n    {}\n}}\n", ty, stmt);
+    (src, ok, format!("{} {}", ty, stmt))
+}
+fn check_matrix_component(i: u64) -> Verdict {
+    let (src, ok, what) = matrix_component_case(i);
+    match type_check_text(&src) {
+        Err(p) => Verdict::fail(format!("panic:{}", p), src),
+        Ok(Ok(_)) if !ok => Verdict::fail("ill-typed-accepted:matrix-component", format!("{}: a component outside of the matrix (or a repeated write target) was accepted\n{}", what, src)),
+        Ok(Err(d)) if ok => Verdict::fail("valid-program-rejected:matrix-component", format!("{}: {}\n{}", what, d, src)),
+        Ok(Ok(_)) => Verdict::pass(Some(i), vec!["matrix_component_accepted".into()]),
+        Ok(Err(_)) => Verdict::pass(Some(i), vec!["matrix_component_rejected".into()]),
+    }
+}
+
 /// an lvalue of type A passed to an `out` / `inout` parameter of type P (both from {bool,int,uint,float} x {scalar,1,2,3}):
 /// accepted exactly when the types are equal, or are T and T1 of the same scalar (a one-element vector aliases its scalar)
 fn out_argument_case(i: u64) -> (String, bool, String) {
@@ -1290,6 +1323,7 @@ pub fn check_record(r: &Value) -> Verdict {
         "swizzle" => check_swizzle(r["index"].as_u64().unwrap_or(0)),
         "out_argument" => check_out_argument(r["index"].as_u64().unwrap_or(0)),
         "const_write" => check_const_write(r["index"].as_u64().unwrap_or(0)),
+        "matrix_component" => check_matrix_component(r["index"].as_u64().unwrap_or(0)),
         "inject" => {
             let base = r["base"].as_str().unwrap_or("");
             let name = r["violation"].as_str().unwrap_or("");
@@ -1302,7 +1336,7 @@ pub fn check_record(r: &Value) -> Verdict {
 
 pub fn run(ctx: &mut Ctx) {
     use proptest::prelude::*;
-    ctx.rule = "(1) IR lint: generated programs of the resource-free subset (always accepted, checked), every 1-2 operator expression tree over the whole operator table on int / float / mixed int-float-uint-bool operands (accepted or rejected; only accepted ones are linted), and the repository's own .rssl inputs are type checked; the resulting module is walked by an independent checker with structural types (operand types equal and of the required class for every operator, non-const lvalues for every write, call arity / argument types / out arguments, return types, constructor slots, initialiser shapes, conditions, subscripts, existing ids) and by RSSL's own Expression::get_type asserts. (2) Injection: 89 kinds of single typing violations (writes to const incl. members / elements / swizzles of const objects and static const globals, writes to rvalues, rvalue or const out / inout arguments, argument count and type errors, return type errors, non-boolean conditions, non-integer switch values, operator operand classes, initialiser shapes, ...) are placed in 15 expression / 5 statement / 3 return contexts inside a function appended before or after a generated program or as a struct method; the program with the violation must be rejected with a diagnostic and its valid twin must be accepted. Writes through every swizzle of length 1-4 over xyzw / rgba on float2/3/4 in four write positions (=, +=, out argument, ++) must be accepted exactly when all components exist and none repeats (8 160 cases). An lvalue of every type from {bool, int, uint, float} x {scalar, 1, 2, 3} passed to an out / inout parameter of every such type (512 cases) is accepted exactly for equal types or T / T1 of one scalar. Every access path of at most 4 steps (members, array elements, vector components / subscripts / swizzles, matrix rows / _mRC components / _mRC swizzles) from 12 root types (scalars, vectors, matrices, arrays of them, two structs, an array of structs) on a const parameter, const local and static const global, in 6 write forms (=, +=, ++, --, out argument, inout argument) must be rejected while the same program without `const` is accepted, and reading through the path must be accepted. A catalogue of 10 resource-related pairs (writes to read-only buffers, textures and constant buffers, resources as operands) is checked the same way. Non-trivial: lint = module with at least 3 expressions; injection = violation rejected and twin accepted. Distinct = hash of the source.".into();
+    ctx.rule = "(1) IR lint: generated programs of the resource-free subset (always accepted, checked), every 1-2 operator expression tree over the whole operator table on int / float / mixed int-float-uint-bool operands (accepted or rejected; only accepted ones are linted), and the repository's own .rssl inputs are type checked; the resulting module is walked by an independent checker with structural types (operand types equal and of the required class for every operator, non-const lvalues for every write, call arity / argument types / out arguments, return types, constructor slots, initialiser shapes, conditions, subscripts, existing ids) and by RSSL's own Expression::get_type asserts. (2) Injection: 89 kinds of single typing violations (writes to const incl. members / elements / swizzles of const objects and static const globals, writes to rvalues, rvalue or const out / inout arguments, argument count and type errors, return type errors, non-boolean conditions, non-integer switch values, operator operand classes, initialiser shapes, ...) are placed in 15 expression / 5 statement / 3 return contexts inside a function appended before or after a generated program or as a struct method; the program with the violation must be rejected with a diagnostic and its valid twin must be accepted. Writes through every swizzle of length 1-4 over xyzw / rgba on float2/3/4 in four write positions (=, +=, out argument, ++) must be accepted exactly when all components exist and none repeats (8 160 cases). An lvalue of every type from {bool, int, uint, float} x {scalar, 1, 2, 3} passed to an out / inout parameter of every such type (512 cases) is accepted exactly for equal types or T / T1 of one scalar. Every access path of at most 4 steps (members, array elements, vector components / subscripts / swizzles, matrix rows / _mRC components / _mRC swizzles) from 12 root types (scalars, vectors, matrices, arrays of them, two structs, an array of structs) on a const parameter, const local and static const global, in 6 write forms (=, +=, ++, --, out argument, inout argument) must be rejected while the same program without `const` is accepted, and reading through the path must be accepted. Named matrix components `_mRC` / `_RC` on every float RxC matrix (R, C in 1..4), read, written and as a written pair (1 536 cases) are accepted exactly when the components exist and a write target does not repeat. A catalogue of 10 resource-related pairs (writes to read-only buffers, textures and constant buffers, resources as operands) is checked the same way. Non-trivial: lint = module with at least 3 expressions; injection = violation rejected and twin accepted. Distinct = hash of the source.".into();
     ctx.assumptions.push("the linter models the resource-free subset; object types, intrinsic signatures and matrices' aggregate initialisers are treated as opaque and counted".into());
     ctx.assumptions.push("a condition may have any numeric or enum type (it is converted where it is used); default argument values are stored unconverted and only need to be convertible".into());
     if !ctx.replay_tier(&check_record) {
@@ -1317,6 +1351,7 @@ pub fn run(ctx: &mut Ctx) {
     // ---- exhaustive: argument type x out / inout parameter type
     let const_write_total = (write_paths().len() * WRITE_FORMS * WRITE_PLACEMENTS) as u64;
     ctx.run_enum("const_write_table", const_write_total, true, |i| json!({"kind": "const_write", "index": i}), |i| check_record(&json!({"kind": "const_write", "index": i})));
+    ctx.run_enum("matrix_component_table", 4 * 4 * 4 * 4 * 2 * 3, true, |i| json!({"kind": "matrix_component", "index": i}), |i| check_record(&json!({"kind": "matrix_component", "index": i})));
     ctx.run_enum("out_argument_type_table", 512, true, |i| json!({"kind": "out_argument", "index": i}), |i| check_record(&json!({"kind": "out_argument", "index": i})));
     // ---- exhaustive: every violation kind x context x placement on an empty base
     let n_ctx = CONTEXTS.len();
